@@ -71,8 +71,12 @@ class Check:
         return recs
 
     # ---- replay (G, X) --------------------------------------------------------------------
-    def replay(self, recs, variant, name, label=None):
-        """execute specified records on the implementation, compare every specified output"""
+    def replay(self, recs, variant, name, label=None, soft=None, soft_trace=None):
+        """execute specified records on the implementation, compare every specified output.
+        soft = {action: [fields]}: outputs whose derivation is implementation-defined (the specification transcribes it to be
+        able to predict bytes, but the property does not promise those bytes).  If ONLY soft fields differ, the observed event is
+        not a violation by itself: it is handed to TLC (soft_trace = (module, cfg)) whose trace machine judges the property's
+        post-condition on the observed output."""
         if not recs:
             raise Infra("no records to replay for " + name)
         obs, rc, err = vlib.harness(self.bins[variant], recs)
@@ -83,6 +87,16 @@ class Check:
                            recs[max(0, idx - 3): idx + 1], variant)
             return
         bad = vlib.compare(recs, obs)
+        if soft and bad:
+            hard, softies = [], []
+            for b in bad:
+                sf = set(soft.get(b["e"], []))
+                (softies if set(b["diff"]) <= sf else hard).append(b)
+            bad = hard
+            if softies:
+                self.notes.append("%d %s records: implementation-defined output differs from the transcription; judged by post-condition" % (len(softies), name))
+                evs = [{"e": b["e"], "in": b["in"], "out": b["impl_out"]} for b in softies]
+                self.validate(evs, soft_trace[0], soft_trace[1], name.replace(" ", "_") + "_soft", variant)
         self.evaluations += len(recs)
         for r in recs:
             self.case_labels[self.label_of(r)] += 1
@@ -162,6 +176,9 @@ class Check:
                 self.known_hits.append(k)
                 return
         n = len(self.violations) + 1
+        if n > 25:      # keep at most 25 replay files; further violations are counted only
+            self.violations.append({"what": what, "replay": self.violations[24]["replay"]})
+            return
         path = "%s/violation-%d.ndjson" % (self.out, n)
         with open(path, "w") as f:
             f.write(json.dumps({"e": "Build", "variant": variant, "what": what, "key": key}) + "\n")
@@ -198,7 +215,7 @@ class Check:
                 else:
                     os.remove(p)
         if self.violations:
-            for v in self.violations:
+            for v in self.violations[:25]:
                 print("VIOLATION property=%s replay=%s" % (self.pid, v["replay"]))
                 print("  " + v["what"])
             return 1
